@@ -60,16 +60,19 @@ Filtered(tag) == cfg.filt /\ tag = "drop"
 \* server-side one (SubscribeOptions.ServerTagsFilter) rather than the client's (same semantics, other code path)
 Filt == {[filt |-> FALSE, sf |-> FALSE], [filt |-> TRUE, sf |-> FALSE], [filt |-> TRUE, sf |-> TRUE]}
 NoSince == [off |-> 0, ep |-> ""]
+\* noep: the broker reported an empty epoch at subscribe time (e.g. a lagging replica without the stream's meta):
+\* the subscription starts with epoch "" and adopts the epoch of the first publication it sees
 Cfgs ==
-  {[kind |-> k, filt |-> f.filt, sf |-> f.sf, auto |-> FALSE, since |-> NoSince] : k \in Kinds \ {"rec", "cache"}, f \in Filt}
+  {[kind |-> k, filt |-> f.filt, sf |-> f.sf, auto |-> FALSE, noep |-> FALSE, since |-> NoSince] : k \in Kinds \ {"rec", "cache"}, f \in Filt}
+  \cup (IF "pos" \in Kinds THEN {[kind |-> "pos", filt |-> f.filt, sf |-> f.sf, auto |-> FALSE, noep |-> TRUE, since |-> NoSince] : f \in Filt} ELSE {})
   \cup (IF "rec" \in Kinds
-          THEN {[kind |-> "rec", filt |-> f.filt, sf |-> f.sf, auto |-> FALSE, since |-> [off |-> o, ep |-> e]] :
+          THEN {[kind |-> "rec", filt |-> f.filt, sf |-> f.sf, auto |-> FALSE, noep |-> FALSE, since |-> [off |-> o, ep |-> e]] :
                   f \in Filt, o \in 0..MaxPub, e \in {"", Ep, "e2"}}
           ELSE {})
   \cup (IF "cache" \in Kinds
-          THEN {[kind |-> "cache", filt |-> f.filt, sf |-> f.sf, auto |-> FALSE, since |-> [off |-> o, ep |-> e]] :
+          THEN {[kind |-> "cache", filt |-> f.filt, sf |-> f.sf, auto |-> FALSE, noep |-> FALSE, since |-> [off |-> o, ep |-> e]] :
                   f \in Filt, o \in 0..MaxPub, e \in {"", Ep, "e2"}}
-               \cup {[kind |-> "cache", filt |-> f.filt, sf |-> f.sf, auto |-> TRUE, since |-> NoSince] : f \in Filt}
+               \cup {[kind |-> "cache", filt |-> f.filt, sf |-> f.sf, auto |-> TRUE, noep |-> FALSE, since |-> NoSince] : f \in Filt}
           ELSE {})
 
 Init ==
@@ -252,7 +255,7 @@ SubFinish ==
                                                   \* cache mode: the client wants the last publication only
                                                   ELSE IF isCache /\ Len(m.pubs) > 1 THEN <<m.pubs[Len(m.pubs)]>>
                                                   ELSE m.pubs])
-                   /\ sub' = [st |-> "live", pos |-> latest, ep |-> Ep]
+                   /\ sub' = [st |-> "live", pos |-> latest, ep |-> IF cfg.noep THEN "" ELSE Ep]
                    /\ pc' = "done" /\ buf' = <<>>
                    /\ UNCHANGED <<hub, pend>>
   /\ UNCHANGED <<top, win, tags, wire, npub, faults, cfg, hres>>
